@@ -260,12 +260,16 @@ def check_slot(name, g, ref, res, ctx, loose=False, unconstrained=(), observe=Tr
             f2 = [tuple(x) for x in g.edges(role=r)]
             f3 = [tuple(x) for x in g.attributes(source=s, role=r)]
             f4 = [tuple(x) for x in g.edges(target=tg)] if tg is not None else None
+            f5 = [tuple(x) for x in g.attributes(target=tg)] if tg is not None else None
+            f6 = [tuple(x) for x in g.attributes(role=r)]
         except Exception as e:
             res.violate('queries', 'filter-raised:' + type(e).__name__, slot=name, error=digest.canon_exc(e), **ctx)
             return False
         if f1 != [x for x in edges if x[0] == s] or f2 != [x for x in edges if x[1] == r] \
                 or f3 != [x for x in attrs if x[0] == s and x[1] == r] \
-                or (f4 is not None and f4 != [x for x in edges if x[2] == tg]):
+                or (f4 is not None and f4 != [x for x in edges if x[2] == tg]) \
+                or (f5 is not None and f5 != [x for x in attrs if x[2] == tg]) \
+                or f6 != [x for x in attrs if x[1] == r]:
             res.violate('queries', 'filter-wrong', slot=name, triple=list(map(str, t)),
                         triples=[list(map(str, x)) for x in triples], top=g._top, **ctx)
             return False
